@@ -561,3 +561,76 @@ Fixpoint rules_eval (tx : txvars) (rules : list rule_in) : option (list bool * t
                        end
     end
   end.
+
+(* ------------------------------------------------------------------------------------ *)
+(* @ipMatch / @ipMatchFromFile (IPv4; items and values containing ':' are IPv6 forms and   *)
+(* stay on the implementation-side oracle)                                               *)
+(* ------------------------------------------------------------------------------------ *)
+(* netip.parseIPv4Fields: [val] current octet, [pos] fields stored, [dig] digits of the current
+   octet, [prevdot] s[i-1] == '.', [first] i == 0, [acc] the address built so far *)
+Fixpoint ipv4_scan (s : bytes) (val : N) (pos dig : nat) (prevdot first : bool) (acc : N) : option N :=
+  match s with
+  | [] => if (pos <? 3)%nat then None else Some (acc * 256 + val)
+  | c :: r =>
+    if is_digit c then
+      if Nat.eqb dig 1 && (val =? 0) then None                  (* leading zero *)
+      else let val' := val * 10 + (c - 48) in
+           if 255 <? val' then None else ipv4_scan r val' pos (S dig) false false acc
+    else if c =? 46 then
+      if first || (match r with [] => true | _ => false end) || prevdot then None
+      else if Nat.eqb pos 3 then None
+      else ipv4_scan r 0 (S pos) 0 true false (acc * 256 + val)
+    else None
+  end.
+(* netip.ParseAddr restricted to strings without ':' : the first of '.', '%' decides *)
+Fixpoint first_dot_or_pct (s : bytes) : N :=
+  match s with
+  | [] => 0
+  | c :: r => if (c =? 46) || (c =? 37) then c else first_dot_or_pct r
+  end.
+Definition parse_ipv4 (s : bytes) : option N :=
+  if first_dot_or_pct s =? 46 then ipv4_scan s 0 0 0 false true 0 else None.
+
+(* net.dtoi on the whole mask text + the range test of ParseCIDR *)
+Definition dec_value (ds : bytes) : N := fold_left (fun a d => a * 10 + (d - 48)) ds 0.
+Definition parse_plen (mask : bytes) : option N :=
+  match mask with
+  | [] => None
+  | _ => if forallb is_digit mask && (dec_value mask <=? 32) then Some (dec_value mask) else None
+  end.
+(* net.ParseCIDR: (address, prefix length); the stored network address is masked *)
+Definition parse_cidr4 (s : bytes) : option (N * N) :=
+  let '(addr, mask, found) := cut_byte 47 s in
+  if negb found then None
+  else match parse_ipv4 addr, parse_plen mask with
+       | Some a, Some n => Some (a, n)
+       | _, _ => None
+       end.
+(* newIPMatch: Split on ',', TrimSpace, skip empty items, "/32" for a bare dotted address,
+   items that do not parse are silently skipped *)
+Definition has_byte (b : N) (s : bytes) : bool := existsb (fun c => c =? b) s.
+Definition ipm_item (item : bytes) : option (N * N) :=
+  let sb := trim_space item in
+  match sb with
+  | [] => None
+  | _ => let sb' := if has_byte 46 sb && negb (has_byte 47 sb) then sb ++ sstr "/32" else sb in
+         parse_cidr4 sb'
+  end.
+Fixpoint ipm_nets (items : list bytes) : list (N * N) :=
+  match items with
+  | [] => []
+  | it :: r => match ipm_item it with Some n => n :: ipm_nets r | None => ipm_nets r end
+  end.
+Definition ipm_new (arg : bytes) : list (N * N) := ipm_nets (split_byte 44 arg).
+(* IPNet.Contains: equal under the mask = equal after dropping the 32 - plen host bits *)
+Definition net_contains (net : N * N) (ip : N) : bool :=
+  let '(a, n) := net in N.shiftr ip (32 - n) =? N.shiftr a (32 - n).
+Definition ipm_eval (nets : list (N * N)) (value : bytes) : bool :=
+  match parse_ipv4 value with
+  | None => false                                   (* net.ParseIP returns nil *)
+  | Some ip => existsb (fun net => net_contains net ip) nets
+  end.
+(* newIPMatchFromFile: every non-empty, non-comment line (trimmed) becomes ",line" *)
+Definition ipmf_arg (data : bytes) : bytes :=
+  flat_map (fun l => 44 :: l)
+           (filter pmf_keep (map (fun l => trim_space (drop_cr l)) (split_byte 10 data))).
